@@ -132,7 +132,7 @@ Fixpoint hops_replay (h : heap) (ops : list value) (obs : list value) : bool * b
 
 Definition glue_C07 (k : string) (a o : list value) : option verdict :=
   if is k "tss.hist" then
-    let ac := run_hist a o in
+    let ac := run_hist false a o in
     Some (relational (a_agree07 ac && negb (a_bad ac) && run_layout a o) (a_oracle07 ac))
   else if is k "heap.ops" then
     match a, o with
@@ -144,27 +144,33 @@ Definition glue_C07 (k : string) (a o : list value) : option verdict :=
     | Some b => Some (relational b b)
     | None => Some (relational false true)
     end
-  else if is k "tss.race" then
-    (* observed: exit status of the child built with the race detector, whether it reported a
-       data race, and the final store: structurally sound as after any sequential history *)
+  else if is k "tss.conc" then
+    (* concurrent calls without the race detector: serialisable = per client the model's run *)
     match o with
-    | [VZ status; VZ race; VL its; qv] =>
-        match parse_queue qv with
-        | Some queue =>
-            let items_ok := forallb (fun v =>
-              match v with
-              | VL [VZ cid; VZ qval; VZ qidx; VL ents] =>
-                  match parse_pairs ents with
-                  | Some ps => C07_item_ok (icap real_config) cid {| oi_qval := qval; oi_qidx := qidx; oi_ents := ps |} queue false
-                               && pairs_ordered ps
-                  | None => false
-                  end
-              | _ => false
-              end) its in
-            let ok := (status =? 0) && (race =? 0) && items_ok && C07_queue_ok (cap real_config) (length its) queue in
-            Some (relational ok ok)
-        | None => Some (relational false true)
-        end
+    | [VL clients; VL counts] => let ok := run_conc clients counts in Some (relational ok ok)
+    | _ => Some (relational false true)
+    end
+  else if is k "tss.race" then
+    (* the same under the race detector (child process): exit status, whether a data race was reported *)
+    match o with
+    | [VZ status; VZ race; VL clients; VL counts] =>
+        let ok := (status =? 0) && (race =? 0) && run_conc clients counts in Some (relational ok ok)
+    | _ => Some (relational false true)
+    end
+  else if is k "tss.full" then
+    (* operations at the real capacity with real before/after items: bounds of every item, the queue
+       value of a known client, and the admission decision for every client without an item *)
+    match o with
+    | [VL recs] => match full_steps recs with
+                   | Some (g, _, orc7) => Some (relational g orc7)
+                   | None => Some (relational false true)
+                   end
+    | _ => Some (relational false true)
+    end
+  else if is k "lsn.hist" then
+    (* histories played against the real listeners: C07 looks at the store they leave behind *)
+    match o with
+    | [_; _; _; VL obs; VL exp] => let '(g, orc) := run_lsn_keys obs exp in Some (relational g orc)
     | _ => Some (relational false true)
     end
   else if is k "tss.lockdiscipline" then
